@@ -68,8 +68,9 @@ func (l *ErrorListener) Errors() []error {
 func (l *ErrorListener) SyntaxError(recognizer antlr.Recognizer, offendingSymbol any, line, column int, msg string, e antlr.RecognitionException) {
 	// extract the part of the original expression where this error has occurred
 	lines := strings.Split(l.expression, "\n")
-	lineOfError := lines[line-1]
-	contextOfError := lineOfError[column:min(column+10, len(lineOfError))]
+	lineOfError := []rune(lines[line-1]) // column counts characters, not bytes
+	column = min(column, len(lineOfError))
+	contextOfError := string(lineOfError[column:min(column+10, len(lineOfError))])
 
 	l.errors = append(l.errors, fmt.Errorf("syntax error at %s", contextOfError))
 }
